@@ -133,7 +133,9 @@ func verifStreamItems(sc verifStreamScn) []verifStreamItem {
 			case "ascii":
 				t = fmt.Sprintf("Hello from item %d, plain text. ", j)
 			case "uni":
-				t = fmt.Sprintf("héllo %d ✓ 世界 \U0001F600 \"quoted\" back\\slash\nnewline\ttab ", j)
+				// (with terminal colour codes, a bell, a vertical tab, DEL and a private-use code point: legal in a JSON
+				// string, and whatever olla writes around them must still be JSON)
+				t = fmt.Sprintf("héllo %d ✓ 世界 \U0001F600 \"quoted\" back\\slash\nnewline\ttab \x1b[1mbold\x1b[0m \x07\x0b\x7f \U000F0000 ", j)
 			case "empty":
 				t = ""
 			case "ws":
@@ -152,7 +154,7 @@ func verifStreamItems(sc verifStreamScn) []verifStreamItem {
 				"order": json.Number("9007199254740993"), // an integer no float64 holds
 				"opts":  map[string]any{"units": []any{"c", "f"}, "deep": true}})
 		case "uni":
-			it.Args = verifStreamCanon(map[string]any{"q": fmt.Sprintf("café %d ✓ 世界 \U0001F600 \"q\" a\\b\nline", j)})
+			it.Args = verifStreamCanon(map[string]any{"q": fmt.Sprintf("café %d ✓ 世界 \U0001F600 \"q\" a\\b\nline \x1b[31mred\x1b[0m \x07\x0b\x7f", j)})
 		case "empty":
 			it.Args = ""
 		case "ws":
